@@ -33,7 +33,7 @@ Lemma real_text_app neg ds fs rest :
   real_text neg ds fs ++ rest = (if neg then [x2d] else []) ++ ds ++ frac_text fs ++ rest.
 Proof. unfold real_text, frac_text. rewrite <- !app_assoc. reflexivity. Qed.
 
-Lemma opt_sign_text neg ds tail :
+Lemma opt_sign_text (neg : bool) ds tail :
   ds <> [] -> forallb is_dec_digit ds = true ->
   opt_sign ((if neg then [x2d] else []) ++ ds ++ tail) = (if neg then Some true else None, ds ++ tail).
 Proof.
@@ -91,39 +91,36 @@ Proof.
 Qed.
 
 (* what the writer does with a real text *)
+Lemma strip_minus_digit c t :
+  is_dec_digit c = true -> (match c with x2d => t | _ => c :: t end) = c :: t.
+Proof. intro H. destruct (digit_not_sign c H) as [Hm _]. destruct c; try reflexivity; contradiction. Qed.
+
 Lemma needs_point_text neg ds :
   ds <> [] -> forallb is_dec_digit ds = true ->
   real_needs_point (real_text neg ds []) = (REAL_POINT_DISPLAY_THRESHOLD <=? digits_val ds).
 Proof.
   intros Hne Hd. unfold real_needs_point, real_text. rewrite app_nil_r.
-  destruct (digits_cons ds Hne Hd) as [c [t [E Hc]]].
+  destruct (digits_cons ds Hne Hd) as [c [t [E Hc]]]. subst ds.
   destruct neg; cbn [app].
-  - rewrite E at 1. rewrite Hd. reflexivity.
-  - rewrite E at 1. destruct (digit_not_sign c Hc) as [Hm _].
-    assert ((match c :: t with x2d :: t0 => t0 | _ => c :: t end) = c :: t) as ->
-      by (destruct c; try reflexivity; contradiction).
-    rewrite <- E, Hd. rewrite E at 1. reflexivity.
+  - rewrite Hd. reflexivity.
+  - destruct c; try discriminate Hc; cbv iota; rewrite Hd; reflexivity.
 Qed.
 
+Lemma forallb_digit_point l t : forallb is_dec_digit (l ++ x2e :: t) = false.
+Proof. induction l as [|c l IH]; cbn [app forallb]; [reflexivity|]. rewrite IH. apply andb_false_r. Qed.
+
 Lemma needs_point_frac neg ds fs :
-  fs <> [] -> real_needs_point (real_text neg ds fs) = false.
+  ds <> [] -> forallb is_dec_digit ds = true -> fs <> [] ->
+  real_needs_point (real_text neg ds fs) = false.
 Proof.
-  intros Hf. unfold real_needs_point, real_text. destruct fs as [|f0 fs]; [contradiction|].
-  assert (forall l, forallb is_dec_digit (l ++ x2e :: f0 :: fs) = false) as Hno.
-  { induction l as [|c l IH]; cbn [app forallb]; [reflexivity|]. rewrite IH. apply andb_false_r. }
+  intros Hne Hd Hf. unfold real_needs_point, real_text. destruct fs as [|f0 fs]; [contradiction|].
+  destruct (digits_cons ds Hne Hd) as [c [t [E Hc]]]. subst ds.
   destruct neg; cbn [app].
-  - destruct (ds ++ x2e :: f0 :: fs) eqn:E; [reflexivity|]. rewrite <- E, Hno. reflexivity.
-  - destruct (ds ++ x2e :: f0 :: fs) as [|c t] eqn:E; [reflexivity|].
-    destruct (byte_eqb c x2d) eqn:Ec.
-    + apply byte_eqb_eq in Ec. subst c.
-      destruct t as [|c2 t2]; [reflexivity|].
-      assert (forallb is_dec_digit (x2d :: c2 :: t2) = false) as H1 by (rewrite <- E; apply Hno).
-      cbn [forallb] in H1.
-      destruct (forallb is_dec_digit (c2 :: t2)) eqn:E2; [|reflexivity].
-      cbn [forallb] in E2. rewrite E2 in H1. cbn in H1. discriminate.
-    + assert ((match c :: t with x2d :: t0 => t0 | _ => c :: t end) = c :: t) as ->.
-      { apply byte_eqb_neq in Ec. destruct c; try reflexivity; contradiction. }
-      rewrite <- E, Hno. reflexivity.
+  - change (c :: t ++ x2e :: f0 :: fs) with ((c :: t) ++ x2e :: f0 :: fs).
+    rewrite forallb_digit_point. reflexivity.
+  - change (c :: t ++ x2e :: f0 :: fs) with ((c :: t) ++ x2e :: f0 :: fs).
+    pose proof (forallb_digit_point (c :: t) (f0 :: fs)) as Hp. cbn [app] in *.
+    destruct c; try discriminate Hc; cbv iota; rewrite Hp; reflexivity.
 Qed.
 
 Definition i64_threshold_ok : Prop := (Z.of_N REAL_POINT_DISPLAY_THRESHOLD <= i64_max + 1)%Z.
@@ -135,4 +132,133 @@ Lemma below_threshold_i64 neg ds :
 Proof.
   intro H. pose proof threshold_ok as T. unfold i64_threshold_ok in T.
   unfold in_i64, int_of_text, i64_min, i64_max in *. destruct neg; lia.
+Qed.
+
+(* ---------- the normal form of a real and the round trip ---------- *)
+
+(* well-formed real text: the shape of Display output of a finite f32 (DESIGN 3, assumption a) *)
+Definition real_wf (r : bytes) : Prop :=
+  exists neg ds fs, r = real_text neg ds fs /\ ds <> [] /\
+                    forallb is_dec_digit ds = true /\ forallb is_dec_digit fs = true.
+
+(* what a real text is read back as: an integral text below the threshold comes back as the
+   integer it denotes (the difference the property permits), an integral text at or above the
+   threshold as the same digits with ".0" appended, any other text verbatim. *)
+Definition strip_minus (r : bytes) : bool * bytes :=
+  match r with x2d :: t => (true, t) | _ => (false, r) end.
+Definition norm_real (r : bytes) : obj :=
+  let '(neg, t) := strip_minus r in
+  if forallb is_dec_digit t then
+    if REAL_POINT_DISPLAY_THRESHOLD <=? digits_val t then OReal (r ++ [x2e; x30])
+    else OInt (int_of_text neg t)
+  else OReal r.
+
+Lemma strip_minus_text (neg : bool) ds tail :
+  ds <> [] -> forallb is_dec_digit ds = true ->
+  strip_minus ((if neg then [x2d] else []) ++ ds ++ tail) = (neg, ds ++ tail).
+Proof.
+  intros Hne Hd. destruct (digits_cons ds Hne Hd) as [c [t [E Hc]]]. subst ds.
+  destruct neg; cbn [app]; [reflexivity|].
+  unfold strip_minus. destruct c; try discriminate Hc; reflexivity.
+Qed.
+
+Lemma norm_real_int neg ds :
+  ds <> [] -> forallb is_dec_digit ds = true ->
+  norm_real (real_text neg ds []) =
+  if REAL_POINT_DISPLAY_THRESHOLD <=? digits_val ds then OReal (real_text neg ds [x30])
+  else OInt (int_of_text neg ds).
+Proof.
+  intros Hne Hd. unfold norm_real, real_text.
+  rewrite (strip_minus_text neg ds [] Hne Hd). rewrite !app_nil_r, Hd.
+  destruct (REAL_POINT_DISPLAY_THRESHOLD <=? digits_val ds); [|reflexivity].
+  rewrite <- !app_assoc. reflexivity.
+Qed.
+
+Lemma norm_real_frac neg ds fs :
+  ds <> [] -> forallb is_dec_digit ds = true -> fs <> [] ->
+  norm_real (real_text neg ds fs) = OReal (real_text neg ds fs).
+Proof.
+  intros Hne Hd Hf. unfold norm_real, real_text. destruct fs as [|f0 fs]; [contradiction|].
+  rewrite (strip_minus_text neg ds _ Hne Hd), forallb_digit_point. reflexivity.
+Qed.
+
+(* the two outcomes of reading a written real: either the [real] alternative returns the text,
+   or it does not match and the [integer] alternative returns the integer *)
+Theorem real_rt r rest :
+  real_wf r -> starts_with digit_or_point rest = false ->
+  (exists r', norm_real r = OReal r' /\ real (write_real r ++ rest) = POk r' rest) \/
+  (exists z, norm_real r = OInt z /\ real (write_real r ++ rest) = PErr /\
+             integer (write_real r ++ rest) = POk z rest).
+Proof.
+  intros [neg [ds [fs [-> [Hne [Hd Hf]]]]]] Hr.
+  assert (Hr1 : starts_with is_dec_digit rest = false).
+  { destruct rest as [|c t]; [reflexivity|]. cbn in *. unfold digit_or_point in Hr.
+    apply orb_false_iff in Hr. tauto. }
+  unfold write_real. destruct fs as [|f0 fs'].
+  - rewrite (needs_point_text neg ds Hne Hd), (norm_real_int neg ds Hne Hd).
+    destruct (REAL_POINT_DISPLAY_THRESHOLD <=? digits_val ds) eqn:ET.
+    + left. exists (real_text neg ds [x30]). split; [reflexivity|].
+      replace (real_text neg ds [] ++ [x2e; x30]) with (real_text neg ds [x30])
+        by (unfold real_text; rewrite <- !app_assoc; reflexivity).
+      apply real_rt_frac; auto; discriminate.
+    + right. exists (int_of_text neg ds). split; [reflexivity|]. split.
+      * apply real_int_err; assumption.
+      * apply integer_text; auto. apply below_threshold_i64. exact ET.
+  - left. rewrite (needs_point_frac neg ds (f0 :: fs') Hne Hd) by discriminate.
+    exists (real_text neg ds (f0 :: fs')). split.
+    + apply norm_real_frac; auto; discriminate.
+    + apply real_rt_frac; auto; discriminate.
+Qed.
+
+(* the first byte of a written real is a minus sign or a digit *)
+Lemma write_real_head r : real_wf r ->
+  exists c t, write_real r = c :: t /\ (c = x2d \/ is_dec_digit c = true).
+Proof.
+  intros [neg [ds [fs [-> [Hne [Hd Hf]]]]]].
+  destruct (digits_cons ds Hne Hd) as [c [t [E Hc]]]. subst ds.
+  unfold write_real. destruct (real_needs_point _); unfold real_text; destruct neg; cbn [app];
+    eexists _, _; (split; [reflexivity|]); auto.
+Qed.
+
+(* a decidable form of [real_wf] for examples and for the generator's mirror *)
+Definition real_wfb (r : bytes) : bool :=
+  let '(_, t) := strip_minus r in
+  let '(ds, r1) := take_while is_dec_digit t in
+  match ds with
+  | [] => false
+  | _ => match r1 with
+         | [] => true
+         | c :: fs => byte_eqb c x2e && forallb is_dec_digit fs &&
+                      match fs with [] => false | _ => true end
+         end
+  end.
+
+Lemma take_while_split p : forall s a b, take_while p s = (a, b) -> s = a ++ b /\ forallb p a = true.
+Proof.
+  induction s as [|c s IH]; intros a b H; cbn [take_while] in H.
+  - inversion H; subst. split; reflexivity.
+  - destruct (p c) eqn:E.
+    + destruct (take_while p s) as [a' b'] eqn:E2. inversion H; subst.
+      destruct (IH a' b eq_refl) as [-> Ha]. split; [reflexivity|]. cbn. rewrite E, Ha. reflexivity.
+    + inversion H; subst. split; reflexivity.
+Qed.
+
+Lemma real_wfb_spec r : real_wfb r = true -> real_wf r.
+Proof.
+  unfold real_wfb, real_wf. intro H.
+  assert (exists neg t, strip_minus r = (neg, t) /\ r = (if neg then [x2d] else []) ++ t) as [neg [t [Es Er]]].
+  { unfold strip_minus. destruct r as [|c r']; [exists false, []; split; reflexivity|].
+    destruct (byte_eqb c x2d) eqn:E.
+    - apply byte_eqb_eq in E. subst c. exists true, r'. split; reflexivity.
+    - exists false, (c :: r'). apply byte_eqb_neq in E. split; [|reflexivity].
+      destruct c; try reflexivity; contradiction. }
+  rewrite Es in H. destruct (take_while is_dec_digit t) as [ds r1] eqn:Et.
+  destruct (take_while_split _ _ _ _ Et) as [Ht Hd].
+  destruct ds as [|d0 ds']; [discriminate|].
+  destruct r1 as [|c fs].
+  - exists neg, (d0 :: ds'), []. rewrite app_nil_r in Ht. subst t.
+    unfold real_text. rewrite app_nil_r. repeat split; auto; discriminate.
+  - apply andb_true_iff in H as [H H3]. apply andb_true_iff in H as [H1 H2].
+    apply byte_eqb_eq in H1. subst c. destruct fs as [|f0 fs']; [discriminate|].
+    exists neg, (d0 :: ds'), (f0 :: fs'). subst t. unfold real_text. repeat split; auto; discriminate.
 Qed.
